@@ -160,7 +160,7 @@ type Case struct {
 }
 
 var rec = ev.New("C03", "c03.positions",
-	"compiled fixtures for every JavaScript position (bare {{ }}, inside '…', \"…\", `…`, a script with comments/quotes/escapes around several expressions, script template in on* attribute and as component, templ.JSFuncCall in attribute and as component with generated function names, JSON script element) are rendered with generated Go values "+
+	"compiled fixtures for every JavaScript position (bare {{ }}, inside '…', \"…\", `…`, a script with comments/quotes/escapes around several expressions - some of them behind escaped quotes and escaped backticks inside their literal -, script template in on* attribute and as component, templ.JSFuncCall in attribute and as component with generated function names, JSON script element) are rendered with generated Go values "+
 		"(strings over a JS/HTML-adversarial alphabet, every scalar value as a one-rune string in the thorough tier, invalid UTF-8, ints, finite floats, bools, nil, nested slices/maps/structs, json.RawMessage values whose text was encoded without HTML escaping, values of int / float / bool / uint kind whose MarshalText or MarshalJSON yields a string or an object, and values without a JSON encoding - NaN, Inf, structs holding a channel/func or NaN next to a string - for which only oracle 1 and the sentinel part of oracle 2 apply); oracle 1: HTML5 tokenizer sees the same structure as for a benign value (script element = one text token, on* attribute = one attribute); "+
 		"oracle 2: V8 evaluates the emitted script bodies and decoded attribute values: no syntax error or exception, no sentinel (alert/pwn) call, and the values reaching cap() equal JSON.stringify(JSON.parse(<Go's JSON encoding>)) computed in the same engine (the original string for in-literal positions). "+
 		"Non-trivial = the value contains a JS- or HTML-sensitive character; distinct by (position, value)")
@@ -350,7 +350,7 @@ func decide(c Case) error {
 			add(j) // the JSON text as a string
 		}
 	case "mixed":
-		add(raw, "pre-"+s+"-post", s, s+" and 2")
+		add(raw, "pre-"+s+"-post", s, s+" and 2", "Run `"+s+"` now", "it's "+s, "q\""+s)
 		add(raw)
 	case "on-attr-two":
 		// handlers are evaluated in attribute order: onmouseover(capTwo) then onclick(capArg)
